@@ -22,7 +22,8 @@ ASSUMPTIONS = [
 
 
 def bounds(tier):
-    return dict(linear_molecules="every rotation of the accepted generic records (default lengths) and of the accepted unmodified kit instances, declared linear "
+    return dict(routes="accepted generic records (default lengths, 4 rotations) produced along: " + ", ".join(gen.ROUTES[1:]),
+                linear_molecules="every rotation of the accepted generic records (default lengths) and of the accepted unmodified kit instances, declared linear "
                                  "(plain SeqRecord, topology linear / Linear / LINEAR / annotated): accepted only if readable without crossing the ends, with those overhangs",
                 instances="every concrete kit class x fills {0,1} x star lengths {3,8}" if tier == "thorough" else "every concrete kit class x fill 0 x star lengths {3,8}",
                 modifications="none; one extra site of the class cutter (both orientations) at 5 places; every single-letter substitution (3 alternatives) of the instance",
@@ -34,7 +35,7 @@ def bounds(tier):
 
 def goals(tier):
     return ["accepts:" + c.__name__ for c in gen.kit_classes()] + [ "accepted-with-extra-site", "module-kind", "vector-kind", "234r-style", "neighbour-kit-structure-accepted",
-            "mutated-letter-accepted", "registry-pair", "generic-pair", "degenerate-far-side-is-a-site", "degenerate-far-side-is-not-a-site", "linear-molecule-accepted", "linear-molecule-rejected"]
+            "mutated-letter-accepted", "registry-pair", "generic-pair", "degenerate-far-side-is-a-site", "degenerate-far-side-is-not-a-site", "linear-molecule-accepted", "linear-molecule-rejected", "record-produced-along-another-route"]
 
 
 # ---------------------------------------------------------------------------------------------
@@ -139,6 +140,32 @@ def check_pair(st, cls, s, scn, rot_list):
         if r or scn.get("mod") or scn.get("cls") != scn.get("instance_of"):
             st.nontrivial += 1
     return acc0
+
+
+def check_routes(st, cls, s, scn, rot_list):
+    """the accepted record produced along every other route (rotated back by the library, reverse-complemented twice, through
+    GenBank text, sequence assigned after a rotation / a reverse complement, made from a record that was edited later): what is
+    reported must be fragments of what the record holds NOW"""
+    for r in rot_list:
+        sr = rm.rot_right(s, r) if r else s
+        for route in gen.ROUTES[1:]:
+            sc = dict(scn, rotation=r, route=route)
+            try:
+                rec = gen.produced(sr, route, "c4")
+                now = str(rec.seq)
+                t = typed(cls, rec)
+            except Exception as e:
+                st.violation("routes", "raises-" + type(e).__name__, sc, "values", str(e)[:200])
+                continue
+            st.scenario("route-" + ("accepted" if t else "rejected"), None, nodes=0)
+            st.nontrivial += 1
+            st.goal("record-produced-along-another-route")
+            if t is None:
+                st.violation("routes", "rejected-although-the-same-plasmid-is-accepted", sc, "accepted", "rejected")
+                continue
+            cause, detail = oracle(cls, now, *t)
+            if cause:
+                st.violation("routes", cause, sc, detail, dict(ov_start=t[0], ov_end=t[1], target=t[2][:80]))
 
 
 def check_linear(st, cls, s, scn, rot_list):
@@ -261,6 +288,7 @@ def run_unit(unit, st, tier):
                     st.goal("generic-pair")
                     if lens is None:
                         check_linear(st, cls, s, dict(sc, family="generic-linear"), range(len(s)))
+                        check_routes(st, cls, s, dict(sc, family="generic-routes"), sorted({0, 1, len(s) // 2, len(s) - 1}))
         st.sample(dict(family="generic", enz=enz, cls="GV_" + enz, rotation=2))
     elif kind == "degenerate":
         unit_degenerate(st, arg[0], arg[1], tier)
@@ -334,6 +362,9 @@ def replay(scn, sub, st):
     cls = gen.class_by_name(scn["cls"])
     gen.prime([cls])
     s = regs.by_id(scn["reg"], scn["id"])["seq"] if fam == "registry" else scn["seq"]
+    if fam.endswith("-routes"):
+        check_routes(st, cls, s, {k: v for k, v in scn.items() if k not in ("rotation", "route")}, [scn.get("rotation", 0)])
+        return
     if fam.endswith("-linear"):
         check_linear(st, cls, s, {k: v for k, v in scn.items() if k not in ("rotation", "presentation")}, [scn.get("rotation", 0)])
         return
